@@ -238,7 +238,7 @@ import c01_wide as W  # noqa: E402
 
 
 def gen_wide(rng, tier):
-    """universes of F1 + nillable + tokens + wrapper + sequence + Attributes maps + init=False fields; instances as generated and with strings
+    """universes of F1 + nillable + tokens + wrapper + sequence + Attributes maps + init=False fields + subclass instances; instances as generated and with strings
     pushed into the excluded regions"""
     for desc, value in W.CORPUS:
         u = B.Universe(desc)
@@ -265,7 +265,7 @@ def impl_valFN(a):
 
 CORRS.append(
     Corr("c01.valFN", gen_wide, impl_valFN, classify=lambda a, o: json.dumps(o.get("ok"), sort_keys=True),
-         describe="hypotheses ctxOK/valOK of bind_generate_F2..F6 on exported real universes and instances vs the oracle's "
+         describe="hypotheses ctxOK/valOK of bind_generate_F2..F7 on exported real universes and instances vs the oracle's "
                   "description of the excluded regions")
 )
 
@@ -274,7 +274,7 @@ def covered_wide(a, msg):
     if not W.ctx_expected(a["ctx"], ns_agree_everywhere):
         if not ns_agree_everywhere(a["ctx"]):
             return "C01-ns-chain"
-        return "C01-nillable-token-lists-empty / C01-tokens-in-sequence-typeerror (excluded universes)"
+        return "C01-nillable-token-lists-empty / C01-tokens-in-sequence-typeerror / text var with child elements (excluded universes)"
     r = W.regions(a["desc"], a["value"], a["ctx"])
     return r[0] if r else None
 
